@@ -65,6 +65,9 @@ type Profile struct {
 	// Metrics available in the dataset (default metricNames).
 	Metrics []string
 	HasHist bool
+	// VaryParams: aggregation parameters are mostly expressions that change from step to
+	// step (read series, use time()) instead of literals.
+	VaryParams bool
 }
 
 // G is the expression generator state.
@@ -597,8 +600,20 @@ func (g *G) vectorProd(which string, depth int, max Cls) (string, Cls) {
 			param = g.kParam(depth) + ", "
 		case "quantile":
 			p, _ := g.Scalar(depth-1, I)
-			if chance(t, 2, 3, "qlit") {
+			qk := ir(t, 0, 5, "qkind")
+			if g.p.VaryParams && chance(t, 2, 3, "qvary") {
+				qk = 3
+			}
+			switch qk {
+			case 0, 1, 2:
 				p = pick(t, []string{"0", "0.5", "0.9", "1", "-1", "2", "NaN", "0.25", "Inf"}, "q")
+			case 3:
+				if !g.p.NoScalarFn {
+					// a quantile that changes from step to step and is absent at some steps
+					sel := pick(t, g.p.Metrics, "qmetric") + "{" + pick(t, []string{"a=\"1\"", "b=\"2\"", "a=\"3\",b=\"1\"", "c=\"1\""}, "qmatch") + "}" + g.modifiers()
+					p = pick(t, []string{"scalar(%s) / 64", "scalar(%s)", "scalar(abs(%s)) / 16", "scalar(count(%s)) / 4"}, "qshape")
+					p = strings.Replace(p, "%s", sel, 1)
+				}
 			}
 			param = p + ", "
 		}
@@ -663,7 +678,11 @@ func (g *G) binCls(cmp bool, boolMod, op string, l, r, kept Cls) Cls {
 
 func (g *G) kParam(depth int) string {
 	t := g.t
-	switch ir(t, 0, 9, "kkind") {
+	kk := ir(t, 0, 9, "kkind")
+	if g.p.VaryParams && chance(t, 2, 3, "kvary") {
+		kk = 1 + ir(t, 0, 1, "kvarykind")
+	}
+	switch kk {
 	case 0:
 		return pick(t, []string{"0", "-1", "NaN", "1e300", "Inf", "-Inf", "9223372036854775808", "0.5", "2.7"}, "kodd")
 	case 1:
